@@ -415,6 +415,8 @@ func (h *vHist) step() bool {
 		h.doPrune()
 	case "readonly":
 		h.doReadonly()
+	case "import":
+		h.doExportImport()
 	default:
 		panic("unknown op " + op)
 	}
@@ -550,4 +552,42 @@ func (h *vHist) vBuildVersions(maxV, maxW int) {
 		}
 		h.doCommit()
 	}
+}
+
+// doExportImport exports the latest version and imports it into an empty store; the history then
+// continues on the imported tree (only the imported version is retained there).
+func (h *vHist) doExportImport() {
+	if h.latest == 0 || h.dirty {
+		vStop()
+	}
+	it, err := h.tree.GetImmutable(h.latest)
+	vAssert(err == nil, "import:getimmutable")
+	ex, err := it.Export()
+	vAssert(err == nil, "import:export")
+	db2 := newVDB()
+	old := h.db
+	h.db = db2
+	h.backend = 0
+	h.open()
+	imp, err := h.tree.Import(h.latest)
+	vAssert(err == nil, "import:import")
+	for {
+		n, err := ex.Next()
+		if err != nil {
+			break
+		}
+		vAssert(imp.Add(n) == nil, "import:add")
+	}
+	ex.Close()
+	vAssert(imp.Commit() == nil, "import:commit")
+	_ = old
+	for v := h.first; v < h.latest; v++ {
+		delete(h.vers, v)
+		delete(h.refRoots, v)
+		delete(h.refHash, v)
+	}
+	h.first = h.latest
+	h.allRoots = map[int64]*rNode{h.latest: h.refRoots[h.latest]}
+	h.resetWorkToLatest()
+	vAssert(vEqBytes(h.tree.Hash(), h.refHash[h.latest]), "import:hash")
 }
